@@ -201,6 +201,19 @@ def run(ctx):
     # Pointer / Peek inside a delimited region act on a BytesIOWithOffsets: its tell/seek translation (shared with C08.R3)
     from . import C08
     C08.substream_class_checks(ctx, "C09.R2")
+    # ... created with the absolute position of the region's first byte as its offset (shared with C08.R3): an absolute Pointer target inside the
+    # region is translated by exactly that offset
+    if not getattr(ctx, "_shared_into_c08", False):
+        from ..core import Ctx as _Ctx8
+        sub8 = _Ctx8("C08", ctx.tier, ctx.root, model=ctx.model)
+        sub8._summ = summariser(ctx)
+        sub8._shared_into_c09 = True
+        C08.run(sub8)
+        for e in sub8.errors:
+            ctx.error("shared C08 rules: " + e)
+        for o in sub8.obligations:
+            if o.rule == "C08.R3" and o.key in ("offset value", "substream class"):
+                ctx.ob("C09.R2", o.where, o.ok, o.what, key=o.key, loc=o.loc, detail=o.detail)
     # ... or, inside a bit-level region, on a RestreamedBytesIO: tell() counts exactly what was handed out, a read that meets the end hands
     # out nothing and moves nothing, seek() accepts only the current position (shared with C10.R4) -- what a failed alternative relies on to rewind
     from ..core import Ctx as _Ctx
